@@ -49,7 +49,9 @@ func runFault(c *hx.Ctx, seq *Seq, counts []int, K int) {
 		switch {
 		case kind == "revert" && check == "event-query-differs":
 			return "failed-revert:running-filter-cleared-in-memory"
-		case kind == "store" && atWindowEnd && strings.Contains(check, "store-fails"):
+		case kind == "store" && atWindowEnd:
+			// in-memory window already advanced: retries fail out-of-range, and queries below the new window
+			// fail because the previous window was never persisted
 			return "failed-store-at-window-end:retry-out-of-range"
 		case kind == "store" && check == "event-query-differs" && snapshotAfter(seq.Ops, opI):
 			return "failed-store:uncommitted-filter-state-persisted-by-snapshot"
@@ -106,6 +108,21 @@ func runFault(c *hx.Ctx, seq *Seq, counts []int, K int) {
 			hx.Fatalf("oracle reply %q", ml)
 		}
 		enc, _ := w.decodeImage(w.inner)
+		if !evOK && !strings.Contains(enc, "snap=-") {
+			// is it the disk (a fresh process is wrong too) and is a persisted snapshot involved? Then it is
+			// the stale-snapshot defect (crash class), not a memory/disk disagreement of this process
+			if okFresh, _ := eventsOK(chain.NewNode(w.inner, seq.NewState, w.opts()...), w.inner, w.lo); !okFresh {
+				c.Violation("crash:stale-filter-snapshot:event-false-negatives", where+fmt.Sprintf("after op %d a fresh process and the restarted process both miss events: %s", idx, evWhat), cs, false)
+				return
+			}
+		}
+		if w.initWrote {
+			c.Hist["process-init-wrote-a-window(unmodelled)"]++
+			if !evOK {
+				c.Violation(classFor("event-query-differs"), where+fmt.Sprintf("after op %d the same process: %s", idx, evWhat), cs, false)
+			}
+			return
+		}
 		if !evOK && strings.Fields(mp[1])[0] == "1" {
 			// the model's running filter covers the chain: is the wrong answer served by the LRU cache of
 			// persisted windows (never invalidated on reorg — property C09's finding, not caused by the
